@@ -22,10 +22,16 @@ ASSUMPTIONS = ['reference derivatives by forward propagation of the same program
 KINDS = ['ew', 'ew', 'bin', 'bin', 'binc', 'getitem', 'sum', 'dot', 'dotc', 'prod', 'buffer', 'buffer', 'bufferconst', 'bufferiop', 'reshape', 'outer', 'linalg', 'tri', 'cplxparts', 'setarr', 'realalias', 'maxmin']
 
 
-def make_case(rng, tier):
+def make_case(rng, tier, prog=None):
     N = rng.randint(1, 4)
     scalar = rng.random() < 0.6
-    prog = gen_program(rng, input_shapes=[(N,)], maxsteps=5 if tier == 'quick' else 9, out_scalar=scalar, kinds=KINDS)
+    if prog is not None:
+        # a fixed program with one vector input
+        N = prog['inputs'][0][0]
+        scalar = len(prog['out_shape']) == 0
+        prog = {k: (list(v) if isinstance(v, list) else v) for k, v in prog.items()}
+    else:
+        prog = gen_program(rng, input_shapes=[(N,)], maxsteps=5 if tier == 'quick' else 9, out_scalar=scalar, kinds=KINDS)
     if not scalar and len(prog['out_shape']) != 1:
         # flatten to a vector output
         n = int(np.prod(prog['out_shape']))
@@ -259,16 +265,69 @@ def poly_fails(case):
     return None
 
 
+def higham_case(rng, pair=None):
+    """f(x) = <C, expm_higham_2005(X)> recorded at a point of one norm band of the method and evaluated at a point of another
+    (all norms below the scaling threshold)"""
+    bands = [0.005, 0.1, 0.6, 1.5]
+    br, be = pair or rng.sample(bands, 2)
+    n = rng.choice([2, 3])
+
+    def point(norm):
+        a = rand_coeffs(rng, (n, n), -1, 1)
+        a[0, 0] += 1.0
+        return (a * (norm / np.linalg.norm(a, 1))).ravel()
+    return {'op': 'higham', 'n': n, 'xr': point(br), 'xe': point(be), 'C': rand_coeffs(rng, (n, n), -1, 1), 'v': rand_coeffs(rng, (n * n,), -1, 1)}
+
+
+def higham_fails(case):
+    n = case['n']
+    C = np.array(case['C'])
+
+    def f(x):
+        return algopy.sum(algopy.expm_higham_2005(algopy.reshape(x, (n, n))) * C)
+
+    def record(x0):
+        cg = algopy.CGraph()
+        fx = algopy.Function(np.array(x0, dtype=float))
+        fy = f(fx)
+        cg.trace_off()
+        cg.independentFunctionList = [fx]
+        cg.dependentFunctionList = [fy]
+        return cg
+    xr, xe, v = np.array(case['xr']), np.array(case['xe']), np.array(case['v'])
+    try:
+        other, here = record(xr), record(xe)
+        got = {'gradient': other.gradient(xe), 'jac_vec': other.jac_vec(xe, v), 'hess_vec': other.hess_vec(xe, v)}
+        want = {'gradient': here.gradient(xe), 'jac_vec': here.jac_vec(xe, v), 'hess_vec': here.hess_vec(xe, v)}
+        fw = UTPM.extract_jacobian(f(UTPM.init_jacobian(xe)))
+    except Exception as ex:
+        return 'higham-exception: %s' % (str(ex).strip().splitlines()[-1][:100])
+    if not close(want['gradient'], fw, 1e-8):
+        return 'higham-gradient: the graph recorded at the evaluation point differs from forward mode (max diff %s)' % maxdiff(want['gradient'], fw)
+    for k in got:
+        if not close(got[k], want[k], 1e-8):
+            return ('higham-%s: the graph recorded at a point of 1-norm %.3g gives a different %s at a point of 1-norm %.3g than the graph '
+                    'recorded there (max diff %s)') % (k, np.linalg.norm(xr.reshape(n, n), 1), k, np.linalg.norm(xe.reshape(n, n), 1), maxdiff(got[k], want[k]))
+    return None
+
+
 def replay_case(ctx, case):
     if case.get('op') == 'poly':
         return poly_fails(case)
+    if case.get('op') == 'higham':
+        return higham_fails(case)
     return drivers_fail(case)
 
 
 def run(ctx):
     rng = ctx.rng
-    for i in range(250 if ctx.tier == 'quick' else 3000):
-        case = make_case(rng, ctx.tier)
+    # the fixed programs with an augmented assignment through a slice view of a buffer (every operator, one- and two-element
+    # views), through the drivers on every run; then generated programs
+    from props import c03
+    fixed = [p_ for p_ in c03.single_op_programs(rng) if len(p_['inputs']) == 1 and len(p_['inputs'][0]) == 1
+             and any(st['op'] == 'iopview' for st in p_['steps'])]
+    for i in range(len(fixed) + (250 if ctx.tier == 'quick' else 3000)):
+        case = make_case(rng, ctx.tier, fixed[i] if i < len(fixed) else None)
         ctx.evaluations += 1
         for o in programs.ops_used(case['prog']):
             ctx.count('op=' + o.split(':')[0])
@@ -281,6 +340,13 @@ def run(ctx):
         if len(ctx.samples) < 2 and len(case['prog']['steps']) >= 3:
             ctx.samples.append(to_jsonable(case))
         f = drivers_fail(case)
+        if f:
+            ctx.report(case, 'failure', f)
+    for i in range(12 if ctx.tier == 'quick' else 120):
+        case = higham_case(rng, [(0.005, 1.5), (0.005, 0.6), (0.1, 1.5), (0.1, 2.0), (1.5, 0.005)][i] if i < 5 else None)
+        ctx.evaluations += 1
+        ctx.count('higham-recording-point')
+        f = higham_fails(case)
         if f:
             ctx.report(case, 'failure', f)
     for i in range(60 if ctx.tier == 'quick' else 600):
